@@ -18,6 +18,7 @@ CONSTANTS
   ImportToks <- MCImportsQ3
   CmtToks <- MCCmt
   NeverPruned <- MCNever
+  RootToks <- MCRootQ
   Cfgs <- MCCfgs
   ImpPairs <- MCImpQ
   InitSchemas <- MCInit2P
